@@ -2,6 +2,7 @@ package main
 
 import (
 	"bytes"
+	"context"
 	"crypto/sha256"
 	"errors"
 	"fmt"
@@ -26,16 +27,45 @@ type subModel struct {
 
 // live is one instantiated system: real store + reference + subscribers.
 type live struct {
-	ds   datastore.Datastore
-	st   *certstore.Store
-	ref  *refStore
-	subs []*subModel
-	fail string // first mismatch
-	fp   string
+	ds     datastore.Datastore
+	st     *certstore.Store
+	ref    *refStore
+	subs   []*subModel
+	strays bool   // a write failed earlier in this history
+	fail   string // first mismatch
+	fp     string
+}
+
+// failDS lets one chosen write (Put or Delete) of the datastore fail: a transient storage error.
+type failDS struct {
+	datastore.Datastore
+	countdown int // the countdown-th write from now fails; 0 = none
+}
+
+func (f *failDS) hit() bool {
+	if f.countdown == 0 {
+		return false
+	}
+	f.countdown--
+	return f.countdown == 0
+}
+
+func (f *failDS) Put(ctx context.Context, k datastore.Key, v []byte) error {
+	if f.hit() {
+		return errors.New("injected datastore write error")
+	}
+	return f.Datastore.Put(ctx, k, v)
+}
+
+func (f *failDS) Delete(ctx context.Context, k datastore.Key) error {
+	if f.hit() {
+		return errors.New("injected datastore write error")
+	}
+	return f.Datastore.Delete(ctx, k)
 }
 
 func newLive() *live {
-	return &live{ds: dssync.MutexWrap(datastore.NewMapDatastore()), ref: &refStore{}}
+	return &live{ds: &failDS{Datastore: dssync.MutexWrap(datastore.NewMapDatastore())}, ref: &refStore{}}
 }
 
 func (l *live) bad(fp, format string, a ...any) {
@@ -178,6 +208,39 @@ func (l *live) apply(op string) {
 				sm.pending = c
 			}
 		}
+	case strings.HasPrefix(op, "putfail:"):
+		// a valid successor whose k-th datastore write fails: Put must fail and nothing observable may change,
+		// now or after reopening (the comparison with the unchanged reference follows every step)
+		var k int
+		fmt.Sscanf(op[8:], "%d", &k)
+		cur := r.latestTable()
+		next := applyShape(cur, 1, len(r.certs))
+		c := honestCert(r.next(), r.head(), cur, next)
+		fd := l.ds.(*failDS)
+		fd.countdown = k
+		err := l.put(c)
+		fired := fd.countdown == 0
+		fd.countdown = 0
+		if fired {
+			// like a crash between two writes, a failed write may leave bytes behind beyond the latest pointer
+			// (C10 covers what a reopen makes of them); from here on only first..latest+1 is compared
+			l.strays = true
+		}
+		if fired && err == nil {
+			l.bad("put-succeeds-although-a-write-failed", "Put(instance %d) returned nil although its datastore write #%d failed", c.GPBFTInstance, k)
+		} else if !fired && err != nil {
+			l.bad("valid-successor-rejected", "Put(valid successor %d): %v", c.GPBFTInstance, err)
+		} else if !fired {
+			// the operation has fewer than k writes: it went through
+			l.ref = r.clone()
+			l.ref.certs = append(l.ref.certs, c)
+			l.ref.tables = append(l.ref.tables, next)
+			for _, sm := range l.subs {
+				if sm.active {
+					sm.pending = c
+				}
+			}
+		}
 	case op == "dupsame", op == "dupfirst":
 		c := r.certs[len(r.certs)-1]
 		if op == "dupfirst" {
@@ -275,7 +338,7 @@ func (l *live) apply(op string) {
 	}
 	// full observable comparison after every step
 	if l.fail == "" && l.st != nil && l.ref.exists {
-		got, want := observe(l.st, l.ref.first, true), l.ref.refObserve(true)
+		got, want := observe(l.st, l.ref.first, !l.strays), l.ref.refObserve(!l.strays)
 		if got != want {
 			l.bad("store-differs-from-reference:"+firstDiffKind(got, want), "after %q the store differs from the reference model:\n--- got\n%s--- want\n%s", op, clip(got), clip(want))
 		}
@@ -310,7 +373,7 @@ func firstDiffKind(a, b string) string {
 func (l *live) key() string {
 	h := sha256.New()
 	r := l.ref
-	fmt.Fprintf(h, "%v|%d|%d|%v|", r.exists, r.first, len(r.certs), l.st != nil)
+	fmt.Fprintf(h, "%v|%d|%d|%v|%v|", r.exists, r.first, len(r.certs), l.st != nil, l.strays)
 	if r.exists {
 		h.Write([]byte(entriesStr(r.latestTable())))
 		if n := len(r.certs); n > 0 {
@@ -329,7 +392,7 @@ func (l *live) key() string {
 
 var c09ops = []string{
 	"create:0", "create:3", "ooc:0", "ooc:3", "ooc:table", "open",
-	"put:0", "put:1", "put:2", "put:3", "put:4",
+	"put:0", "put:1", "put:2", "put:3", "put:4", "putfail:1", "putfail:2", "putfail:3",
 	"dupsame", "dupfirst", "dupdiff", "gap", "stale", "wrongdelta", "wrongcid", "bottom", "empty",
 	"sub", "recv:0", "recv:1", "unsub:0", "unsub:1",
 }
